@@ -36,3 +36,35 @@ Qed.
 Example drop_is_one_step s : c_w s = WRaw ->
   cstep s ODropWriter = let '(s1, wk) := drop_writer_inner (set_w s WGone) in (s1, RUnit, opt_list wk).
 Proof. intros Hw. cbn [cstep]. now rewrite Hw. Qed.
+
+(* ---- no parking while chunks are queued (C10) ---- *)
+(* However many chunks are queued -- one or a million --, that many consecutive polls deliver exactly
+   them, in order, each as data: the consumer is never told Pending while the queue is non-empty, so it
+   needs no wake-up to get what a flush already made available. *)
+From HS Require Import Proofs.ChunkerP.
+Theorem queued_chunks_are_delivered q : forall s rb wd w, c_reader s = true -> c_st s = SOk q rb wd ->
+  let '(sf, rs) := crun s (repeat (OPoll w) (length q)) in
+  del_total rs = concat q /\ Forall (fun p => exists d, fst p = RPoll (Some (Some (Some d)))) rs /\
+  (c_st sf = SOk [] (rb - lenN (concat q)) wd \/ (q <> [] /\ wd = true /\ c_st sf = SFused)).
+Proof.
+  induction q as [|c ready IH]; intros s rb wd w Hr Hs; cbn [length repeat crun].
+  - split; [reflexivity|]. split; [constructor|]. left. cbn [concat]. unfold lenN. cbn [length]. rewrite N.sub_0_r. exact Hs.
+  - cbn [cstep]. rewrite Hr, Hs. cbn [negb].
+    set (s1 := {| c_st := match ready, wd with [], true => SFused | _, _ => SOk ready (rb - lenN c) wd end;
+                  c_waker := c_waker s; c_buf := c_buf s; c_cap := c_cap s; c_w := c_w s; c_reader := true |}).
+    destruct ready as [|c2 ready'].
+    + (* the last queued chunk *)
+      cbn [length repeat crun]. cbn [del_total flat_map fst delivered_of concat app]. rewrite !app_nil_r.
+      split; [reflexivity|]. split; [constructor; [eexists; reflexivity|constructor]|].
+      destruct wd; cbn [s1 c_st].
+      * right. split; [discriminate|]. split; reflexivity.
+      * left. reflexivity.
+    + assert (Hs1 : c_st s1 = SOk (c2 :: ready') (rb - lenN c) wd) by (cbn [s1 c_st]; destruct wd; reflexivity).
+      specialize (IH s1 (rb - lenN c) wd w eq_refl Hs1).
+      destruct (crun s1 (repeat (OPoll w) (length (c2 :: ready')))) as [sf rs]. destruct IH as (Hd & HF & Hst).
+      split; [cbn [del_total flat_map fst delivered_of]; fold (del_total rs); rewrite Hd; reflexivity|].
+      split; [constructor; [eexists; reflexivity|exact HF]|].
+      destruct Hst as [Hst|(Hne & Hwd & Hst)].
+      * left. rewrite Hst. f_equal. change (concat (c :: c2 :: ready')) with (c ++ concat (c2 :: ready')). unfold lenN. rewrite app_length, Nat2N.inj_add. lia.
+      * right. split; [discriminate|]. split; assumption.
+Qed.
